@@ -39,6 +39,13 @@ Lemma sq_frame : forall s s' now, rt_ping_timeout (s_rt s') = rt_ping_timeout (s
   ob_ctl (s_ob s') = ob_ctl (s_ob s) -> should_queue_pingreq s' now = should_queue_pingreq s now.
 Proof. intros s s' now H1 H2 H3. unfold should_queue_pingreq, has_pending_pingreq. rewrite H1, H2, H3. reflexivity. Qed.
 
+(* what the ping decision reads of a session: two timers and the control queue *)
+Definition pframe (s s' : session) : Prop :=
+  rt_ping_timeout (s_rt s') = rt_ping_timeout (s_rt s) /\ rt_next_ping (s_rt s') = rt_next_ping (s_rt s) /\
+  ob_ctl (s_ob s') = ob_ctl (s_ob s).
+Lemma pframe_sq : forall s s', pframe s s' -> forall now, should_queue_pingreq s' now = should_queue_pingreq s now.
+Proof. intros s s' [H1 [H2 H3]] now. now apply sq_frame. Qed.
+
 Lemma broker_feed_now : forall w a, w_now (broker_feed w a) = w_now w.
 Proof. intros. destruct (broker_feed_fields w a) as [_ [_ [_ [H _]]]]. exact H. Qed.
 
